@@ -425,20 +425,20 @@ def run(tier, seed, result):
     notes = []
     closure = True
     if tier == 'quick':
-        cfgs = [((0, 1), [(0, '/'), (1, '/'), (0, '/x')]),
-                ((0, 0), [(0, '/'), (1, '/')])]
+        cfgs = [((0, 1), [(0, '/'), (1, '/'), (0, '/x')], [[1, '/']]),
+                ((0, 0), [(0, '/'), (1, '/')], [[1, '/']])]
     else:
-        cfgs = [((0, 1), [(0, '/'), (1, '/'), (0, '/x'), (1, '/x')]),
-                ((0, 0), [(0, '/'), (1, '/'), (0, '/x')]),
-                ((0, 1, 2), [(0, '/'), (1, '/'), (2, '/')]),
-                ((0, 1, 1), [(0, '/'), (1, '/'), (2, '/')]),
-                ((0, 1, 2, 3), [(0, '/'), (3, '/')])]
-    for placement, pairs in cfgs:
+        cfgs = [((0, 1), [(0, '/'), (1, '/'), (0, '/x'), (1, '/x')],
+                 [[1, '/'], [0, '/']]),
+                ((0, 0), [(0, '/'), (1, '/'), (0, '/x')], [[1, '/']]),
+                ((0, 1, 2), [(0, '/'), (1, '/'), (2, '/')], [[2, '/']]),
+                ((0, 1, 1), [(0, '/'), (1, '/'), (2, '/')], [[1, '/']]),
+                ((0, 1, 2, 3), [(0, '/'), (3, '/')], [[3, '/']])]
+    for placement, pairs, cbpairs in cfgs:
         for is_async in (False, True):
             params = dict(is_async=is_async, placement=list(placement),
-                          pairs=[list(p) for p in pairs], seed=seed)
-            if tier == 'quick':
-                params['cbpairs'] = [[1, '/']]
+                          pairs=[list(p) for p in pairs], seed=seed,
+                          cbpairs=cbpairs)
             params['sidroom'] = len(set(placement)) > 1
             st = e1.explore('c07', params, result, max_depth=40)
             closure = closure and st['closure']
